@@ -225,3 +225,58 @@ func TestDefaults(t *testing.T) {
 	st.AddEnumerated(n, n)
 	st.SetExhaustive()
 }
+
+// Every colour byte pattern as a suggested-palette entry: all 256 one-byte, all
+// 65536 two-byte, strided three-byte and class-exhaustive four-byte patterns
+// (24 representative channel values ^ 4, plus a stride), 64 entries per chunk.
+func TestPaletteEntryPatterns(t *testing.T) {
+	st := harness.Counter("palette-entry-patterns", "every 1-byte and 2-byte colour pattern, strided 3-byte and class-exhaustive 4-byte patterns (24 representative channel values ^4 + stride 4099) as suggested-palette entries, 64 per chunk: Reset receives the colour, or opaque black for indirect and non-premultiplied ones")
+	rep := []byte{0x00, 0x01, 0x10, 0x11, 0x22, 0x3f, 0x40, 0x41, 0x55, 0x7f, 0x80, 0x81, 0x88, 0xaa, 0xbf, 0xc0, 0xc1, 0xcc, 0xee, 0xef, 0xf0, 0xfe, 0xff, 0x33}
+	var n, nt int64
+	flush := func(form int, pats [][]byte) {
+		if len(pats) == 0 {
+			return
+		}
+		body := []byte{0x02, byte(len(pats)-1) | byte(form)<<6}
+		want := ops.DefaultPalette()
+		for i, p := range pats {
+			body = append(body, p...)
+			cv, _ := spec.DecodeColor(form, p)
+			if cv.T == 0 && spec.Premultiplied(cv.RGBA()) {
+				want[i] = cv.RGBA()
+			} else {
+				nt++
+			}
+		}
+		b := append([]byte{0x89, 'I', 'V', 'G', 0x02}, spec.EncodeNaturalW(uint32(len(body)), spec.NaturalWidth(uint32(len(body))))...)
+		b = append(b, body...)
+		c := Case{Bytes: b, Expect: "valid", ViewBox: [4]ops.F32{-32, -32, 32, 32}, Palette: &want}
+		n += int64(len(pats))
+		if err := subMeta.Eval(c); err != nil {
+			t.Fatal(err)
+		}
+	}
+	sweep := func(form int, count uint64, pat func(x uint64) []byte) {
+		var pats [][]byte
+		lo, hi := harness.Range(count)
+		for x := lo; x < hi; x++ {
+			pats = append(pats, pat(x))
+			if len(pats) == 64 {
+				flush(form, pats)
+				pats = pats[:0]
+			}
+		}
+		flush(form, pats)
+	}
+	sweep(0, 256, func(x uint64) []byte { return []byte{byte(x)} })
+	sweep(1, 1<<16, func(x uint64) []byte { return []byte{byte(x), byte(x >> 8)} })
+	sweep(2, 1<<24/251, func(x uint64) []byte { y := x * 251; return []byte{byte(y), byte(y >> 8), byte(y >> 16)} })
+	k := uint64(len(rep))
+	sweep(3, k*k*k*k, func(x uint64) []byte { return []byte{rep[x%k], rep[x/k%k], rep[x/k/k%k], rep[x/k/k/k%k]} })
+	sweep(3, 1<<32/4099, func(x uint64) []byte {
+		y := x * 4099
+		return []byte{byte(y), byte(y >> 8), byte(y >> 16), byte(y >> 24)}
+	})
+	st.AddEnumerated(n, nt)
+	st.SetExhaustive()
+}
